@@ -4,5 +4,6 @@ CONSTANTS
   DEV_NoInvalidateOnPredictionTR = TRUE
   DEV_NoReindexOnNetworkTR = FALSE
   DEV_NoInvalidateCycle = FALSE
+  DEV_MergeRebuildOnlyIfAll = FALSE
 VIEW View
 INVARIANT InvFresh
